@@ -148,6 +148,8 @@ class PySnmpCodeGen(IntermediateCodeGen):
                                  trim_blocks=True, lstrip_blocks=True)
 
         env.filters['capfirst'] = jfilters.capfirst
+        env.filters['pyblock'] = jfilters.pyblock
+        env.filters['pyline'] = jfilters.pyline
 
         try:
             tmpl = env.get_template(dstTemplate or self.TEMPLATE_NAME)
